@@ -15,7 +15,8 @@ RULE = ('targets of TT-rank rho=1..4 with continuous random cores, d=2..6, '
     'expected rank m in [rho, rho+2], every mode size >= m, cap r >= rho (or '
     'default), sample seeds (int and Generator), scales 1e-3..1e3; '
     'non-trivial = distinct (shape, rho, m, cap) with rho >= 2 or d >= 3')
-REQUIRED = {'wellformed': 200, 'ranks-cap': 200, 'recovery': 150}
+REQUIRED = {'wellformed': 200, 'ranks-cap': 200, 'recovery': 150,
+    'recovery-second-call': 150}
 ASSUMPTIONS = ['instances whose sampled blocks have sigma_rho/sigma_1 < 1e-5 '
     '(from the dense target restricted to the sample set) are not judged',
     'recovery tolerance 1e-7 max|T| ("up to rounding" for blocks of '
@@ -106,6 +107,17 @@ def run_case(case, ctx):
             ranks_target=rt, ranks_result=rz, conditioning=cond)
         ctx.margins['recovery'] = max(ctx.margins.get('recovery', 0.),
             err / (1e-7 * tmax))
+        # history: the same sample arrays handed in a second time (a caller
+        # comparing caps, or re-fitting after the first result was consumed)
+        Z2 = teneva.svd_incomplete(I, y, idx, idx_many, 1e-10, cap)
+        if ctx.check('wellformed', ref.wellformed(Z2, n) is None,
+                'second svd_incomplete call on the same arrays: malformed'):
+            err2 = float(np.abs(np.asarray(ref.dense_ld(Z2), dtype=float)
+                - T).max())
+            ctx.check('recovery-second-call', err2 <= 1e-7 * tmax, lambda:
+                f'second call on the same sample arrays: max|Z - T| = '
+                f'{err2:.3e} > {1e-7 * tmax:.3e} (first call: {err:.3e})',
+                shape=n, cap=cap)
     if rho >= 2 or d >= 3:
         ctx.nontrivial([n, rho, m, cap])
     ctx.sample({'case': case, 'shape': n, 'target_ranks': rt, 'expected_rank': m,
